@@ -296,6 +296,7 @@ class ParseMCNPCell:
                             0., 0., 1.]
         elif '*' in elt:
             fill_params = [float(x) for x in fill_params]
+            self.check_inline_m(fill_params)
             fill_params[3:] = list(map(to_cos, fill_params[3:12]))
             fill_params = normalize_transform(fill_params)
         elif fill_params:
@@ -304,6 +305,14 @@ class ParseMCNPCell:
 
 
         return fillid_bounds, fillid_u, tuple(fill_params)
+
+    @staticmethod
+    def check_inline_m(params):
+        '''Reject inline transformations with a thirteenth entry (m) different
+        from 1, like it is done for the TR cards.'''
+        if len(params) == 13 and int(params[12]) != 1:
+            raise NotImplementedError('affine transformations with m!=1 '
+                                      'are not supported yet')
 
     @staticmethod
     def parse_lat_kw(kw_list):
@@ -339,6 +348,7 @@ class ParseMCNPCell:
                             0., 0., 1.]
         elif '*' in elt:
             trcl_params = [float(x) for x in trcl_params]
+            self.check_inline_m(trcl_params)
             trcl_params[3:] = list(map(to_cos, trcl_params[3:12]))
         elif trcl_params:
             # this is the case where the transform parameters were given inline
